@@ -665,7 +665,15 @@ const MaxInspectDepth = 10_000
 type inspector struct {
 	out    *strings.Builder
 	source bool // spell floats and the smallest integer so that they read back as the same value (for saving).
-	cut    bool // something was nested deeper than MaxInspectDepth and written as ...
+	cut    bool // something was nested deeper than the limit and written as ...
+	limit  int  // 0 means MaxInspectDepth.
+}
+
+func (w *inspector) tooDeep(depth int) bool {
+	if w.limit > 0 {
+		return depth >= w.limit
+	}
+	return depth >= MaxInspectDepth
 }
 
 // DeeperThan tells if arrays and maps are nested more than n levels inside o (the walk stops there).
@@ -727,7 +735,7 @@ func (w *inspector) object(o Object, depth int) {
 
 func (w *inspector) list(list []Object, before, sep, after string, depth int) {
 	w.out.WriteString(before)
-	if depth >= MaxInspectDepth && len(list) > 0 {
+	if w.tooDeep(depth) && len(list) > 0 {
 		w.out.WriteString("...")
 		w.cut = true
 		list = nil
@@ -743,7 +751,7 @@ func (w *inspector) list(list []Object, before, sep, after string, depth int) {
 
 func (w *inspector) pairs(kvs []keyValuePair, depth int) {
 	w.out.WriteString("{")
-	if depth >= MaxInspectDepth && len(kvs) > 0 {
+	if w.tooDeep(depth) && len(kvs) > 0 {
 		w.out.WriteString("...")
 		w.cut = true
 		kvs = nil
